@@ -51,6 +51,10 @@ def scenarios(tier, seed):
         add("replaced_targets", n=2, m=2)
         add("multitask", n=2, t=2, m=1, cfg={})
         add("multitask", n=1, t=3, m=2, cfg={"fpv": True, "detach": False})
+        add("kiss", nodes=[2, 3], fpv=False, symx=True)
+        add("kiss", nodes=[], fpv=False, symx=False)
+        for ops in (["P0", "L"], ["P1", "O"], ["P0", "Dxy"]):
+            add("after_history", ops=ops)
     else:
         for cfg in all_configs(SETTINGS):
             add("stub_posterior", n=3, m=2, mean="constant", lik="gaussian", cfg=cfg, batch=0)
@@ -62,6 +66,11 @@ def scenarios(tier, seed):
         add("replaced_targets", n=3, m=2)
         for cfg in all_cfgs[:8] if "all_cfgs" in dir() else [{}, {"fpv": True}, {"lazy": False}, {"detach": False}]:
             add("multitask", n=2, t=2, m=1, cfg=cfg)
+        add("kiss", nodes=[2, 3], fpv=False, symx=True)
+        add("kiss", nodes=[3, 1], fpv=True, symx=True)
+        add("kiss", nodes=[], fpv=False, symx=False)
+        for ops in (["P0", "L"], ["P1", "O"], ["P0", "Dxy"], ["P2", "L", "P0"], ["P0", "Dx"], ["P1", "Dy"]):
+            add("after_history", ops=ops)
         add("multitask", n=2, t=3, m=1, cfg={})
         add("multitask", n=1, t=2, m=2, cfg={"fpv": True})
         for k in ["rbf", "rq"]:
@@ -70,6 +79,18 @@ def scenarios(tier, seed):
         # Matern (sqrt-distance atoms nested under Cholesky square roots) is only decided on the eager route
         add("real_kernel", kernel="matern", n=2, m=2, cfg={"lazy": False})
     return out
+
+
+def kiss(S, nodes, fpv, symx):
+    """KISS-GP (InterpolatedPredictionStrategy) posterior = dense conditional on the interpolated kernel matrix (see C09.kiss_model)"""
+    from .C09 import kiss_model
+    kiss_model(S, False, fpv, nodes=tuple(nodes), symx=symx)
+
+
+def after_history(S, ops):
+    """the posterior after load_state_dict / optimiser steps / data replacement equals that of a fresh model (see C03.history)"""
+    from .C03 import history
+    history(S, ops)
 
 
 def multitask(S, n, t, m, cfg):
